@@ -2787,6 +2787,11 @@ impl DhtNetworkManager {
     pub fn verif_is_shut_down(&self) -> bool {
         self.shutdown.is_cancelled()
     }
+
+    /// Whether the core engine's maintenance task has been told to stop.
+    pub async fn verif_core_shutdown_signalled(&self) -> bool {
+        self.dht.read().await.verif_shutdown_signalled()
+    }
 }
 
 impl Default for DhtNetworkConfig {
